@@ -456,9 +456,14 @@ static void cast(Type *from, Type *to) {
 // members in its byte range [lo, hi).
 static bool has_flonum(Type *ty, int lo, int hi, int offset) {
   if (ty->kind == TY_STRUCT || ty->kind == TY_UNION) {
-    for (Member *mem = ty->members; mem; mem = mem->next)
+    for (Member *mem = ty->members; mem; mem = mem->next) {
+      // Unnamed bit-fields are padding; they do not take part in
+      // the classification of the eightbyte.
+      if (mem->is_bitfield && !mem->name)
+        continue;
       if (!has_flonum(mem->ty, lo, hi, offset + mem->offset))
         return false;
+    }
     return true;
   }
 
